@@ -22,12 +22,16 @@ def pPair (s : String) : Option (Nat × Nat) :=
   | [a, b] => do let x ← pNat a; let y ← pNat b; pure (x, y)
   | _ => none
 
-/-- cookie reference: `-` none, `x` garbage (both: nothing that verifies), `<uid>:<level>` -/
-def pCookie (s : String) : Option (Option Cookie) :=
-  if s == "-" || s == "x" then some none
+/-- one cookie reference: `x` garbage (a value that does not verify), `<uid>:<level>` -/
+def pCookie1 (s : String) : Option (Option Cookie) :=
+  if s == "x" then some none
   else match pPair s with
     | some (u, l) => some (some ⟨u, l⟩)
     | none => none
+
+/-- the auth cookies of a request, in order: `-` none, else references joined by `+` -/
+def pCookie (s : String) : Option Cookies :=
+  if s == "-" then some [] else (s.splitOn "+").mapM pCookie1
 
 def pOwner (s : String) : Option (Option User) :=
   if s == "x" then some none else (pNat s).map some
@@ -81,6 +85,7 @@ def parseOp : List String → Option Op
   | ["oktapoll", c] => do pure (.oktaPoll (← pCookie c))
   | ["tick"] => some .tick
   | ["sweep"] => some .sweep
+  | ["fault", sv, ld] => do pure (.fault (← parseBool sv) (← parseBool ld))
   | _ => none
 
 def cfgOfFlags (f b : Nat) : UserCfg := ⟨f.testBit 0, f.testBit 1, f.testBit 2, b⟩
@@ -131,7 +136,7 @@ def digest (s : State) : String :=
     let ch := optStr (fun (c : Chal) => s!"{c.id}/{boolStr c.hasWA}/{rel c.issuedAt}") (s.chal u)
     let lt := if p.lastTotp = 0 then "never" else rel p.lastTotp
     s!"[{ch} lt={lt} b={optStr rel p.boot} o={boolStr (s.oktaSess u)}{boolStr (s.oktaPushed u)}{boolStr (s.oktaApproved u)}]"
-  s!"t={rel s.now} ck={ck} tk={tk} push={push} svc={svc} nc={s.nextChal} {usr}"
+  s!"t={rel s.now} f={boolStr s.saveFails}{boolStr s.loadFails} ck={ck} tk={tk} push={push} svc={svc} nc={s.nextChal} {usr}"
 
 /-! ### model mode -/
 structure MState where
@@ -184,11 +189,12 @@ def pCk (s : String) : Option Cookie := (pPair s).map fun p => ⟨p.1, p.2⟩
 def splitArrow (fs : List String) : List String × List String :=
   (fs.takeWhile (· != "=>"), (fs.dropWhile (· != "=>")).drop 1)
 
-/-- which request cookie an op line carries (field 1 of every request op except login) -/
+/-- the cookie that identifies the caller of an op line: the LAST auth cookie attached (field 1 of every
+request op except login) -/
 def opCookie (fs : List String) : Option Cookie :=
   match fs with
   | "login" :: _ => none
-  | _ :: c :: _ => (pCookie c).join
+  | _ :: c :: _ => (pCookie c).bind caller
   | _ => none
 
 def judgeStep (j : JState) (fs : List String) : JState × String :=
@@ -214,6 +220,8 @@ def judgeStep (j : JState) (fs : List String) : JState × String :=
         match opf with
         | ["login", u, _] => if pNat u == some c.sub then none else some "subject:login"
         | _ => if sub == some c.sub then none else some s!"subject:{opf.headD "?"}"
+      -- P0: only a success response hands out a cookie (a step that failed to consume must not upgrade)
+      let v0 := if acc && !(code == "200" || code == "308") then [s!"cookie-on-error:{opf.headD "?"}"] else []
       let j1 := { j with log := log }
       let (j2, v3) : JState × List String :=
         match opf with
@@ -269,7 +277,7 @@ def judgeStep (j : JState) (fs : List String) : JState × String :=
             | none => (j1, ["accepted-garbage:senddoc"])
           else (j1, [])
         | _ => (j1, [])
-      let v := v1 ++ v2 ++ v3
+      let v := v0 ++ v1 ++ v2 ++ v3
       (j2, if v.isEmpty then "ok" else "viol " ++ " ".intercalate v.eraseDups)
     | _, _ => (j, "bad-op")
   | _ => (j, "bad-op")
